@@ -255,6 +255,12 @@ func SeamShapes() []*big.Int {
 	add(z)
 	z2 := new(big.Int).Lsh(new(big.Int).SetUint64(0x27fffffffffff), 64)
 	add(new(big.Int).Or(z2, ones))
+	// binary overflow limits divided by powers of ten, and values just above/below them
+	// (windows that a slightly wrong guard constant opens: 2^64/10, 2^128/10, Cmax)
+	for _, t := range []string{"1844", "1845", "185", "186", "19", "3402", "3403", "341", "342", "345", "35", "3322", "3323", "333", "1297", "1299", "13", "2551", "2552", "256", "26"} {
+		add(bi(t))
+		add(bi(t + "00000000000000000000000000000001"[len(t)-2:]))
+	}
 	add(bi("11000000000000000000000000000000000"))
 	add(bi("12500000000000000000000000000000000"))
 	add(bi("12980742146337069071326240823050230"))
@@ -304,6 +310,16 @@ func SmallShapes() []*big.Int {
 	}
 	out = append(out, ref.Cmax, pow2(64), new(big.Int).Sub(pow2(64), big.NewInt(1)), pow2(113))
 	return dedupe(out)
+}
+
+// LeadSweep returns every n-digit integer (all leading-digit prefixes of that length).
+func LeadSweep(n int) []*big.Int {
+	var out []*big.Int
+	lo := ref.Pow10(n - 1).Int64()
+	for v := lo; v < lo*10; v++ {
+		out = append(out, big.NewInt(v))
+	}
+	return out
 }
 
 // Cohort returns all encodings (c', q') of the finite value c*10^q within the format.
